@@ -151,4 +151,60 @@ theorem C13_witness (solve : Array (Array ℝ) → Array ℝ → Array ℝ)
     rw [Real.sqrt_lt' (by norm_num)]
     norm_num
 
+/-! ### witness for the clause `maskExact`: `n = 1`, `A = [2]`, `b = [1]`, `tol = 1/5` -/
+
+/-- `x ↦ 2x` on `ℝ` -/
+noncomputable def dbl : ℝ →ₗ[ℝ] ℝ := (2 : ℝ) • LinearMap.id
+
+theorem dbl_apply (x : ℝ) : dbl x = 2 * x := by simp [dbl]
+
+theorem h00_dbl (tol : ℝ) : (colAt dbl 1 tol (1 : ℝ) 1).h 0 0 = 2 := by
+  rw [colAt_one_h _ _ _ _ (le_refl _), if_pos rfl, if_neg (by norm_num), if_pos rfl]
+  simp [dbl_apply]
+
+theorem h10_dbl (tol : ℝ) : (colAt dbl 1 tol (1 : ℝ) 1).h 1 0 = 0 := by
+  rw [colAt_one_h _ _ _ _ (le_refl _), if_pos rfl, if_pos rfl]
+  unfold w1
+  simp [dbl_apply]
+
+theorem idx_dbl (tol : ℝ) : (runE dbl 1 1 tol [(1 : ℝ)]).idx = 1 := by
+  have h1 := run_idx_pos dbl 1 1 (le_refl _) (le_refl _) tol (1 : ℝ)
+  have h2 := (run_spec (⇑dbl) 1 1 (RCLike.ofReal tol : ℝ) [(1 : ℝ)]).2.1
+  have h3 : (runE dbl 1 1 tol [(1 : ℝ)]).idx ≤ 1 := le_trans h2 (by norm_num)
+  omega
+
+/-- with `tol = 1/5` the mask hits the only (executed) step: `|h₀₀| = 2 < 10 · tol · 2 = 4` -/
+theorem pad_dbl (drop : Bool) :
+    (padding drop 1 (RCLike.ofReal (1 / 5 : ℝ) : ℝ) (colAt dbl 1 (1 / 5) (1 : ℝ) 1)).getD 0 false = true := by
+  have hr : List.range 2 = [0, 1] := rfl
+  cases drop
+  · unfold padding largestVals
+    simp only [Array.getD_eq_getD_getElem?]
+    simp [maxRange, Num.max, hr, h00_dbl, h10_dbl]
+    norm_num
+  · unfold padding largestVals
+    simp only [Array.getD_eq_getD_getElem?]
+    simp [maxRange, Num.max, h00_dbl]
+    norm_num
+
+/-- clause `maskExact` is needed: whatever the solver returns, the model (either switch) returns
+`x = x₀ = 0` for the `1 × 1` system `2 x = 1` with `tol = 1/5`: residual `1`, while `x = 1/2 ∈ x₀ + K₁`
+has residual `0` -/
+theorem mask_witness (solve : Array (Array ℝ) → Array ℝ → Array ℝ) (drop : Bool) :
+    (gmresCore solve drop (⇑dbl) 1 1 (RCLike.ofReal (1 / 5 : ℝ) : ℝ) [(1 : ℝ)] [0]).soln = [0] ∧
+    ‖(1 : ℝ) - dbl 0‖ = 1 ∧ ‖(1 : ℝ) - dbl ((1 / 2 : ℝ) • (1 : ℝ))‖ = 0 ∧
+    ¬ MaskExact drop 1 (1 / 5) 1 (colAt dbl 1 (1 / 5) (1 : ℝ) 1) := by
+  have hr0 : (1 : ℝ) - dbl 0 = 1 := by simp
+  have hs := (gmresCore_single solve drop dbl 1 1 (1 / 5) (1 : ℝ) 0).1
+  rw [hr0, idx_dbl] at hs
+  refine ⟨?_, by rw [hr0]; simp, by rw [dbl_apply]; norm_num, ?_⟩
+  · rw [hs]
+    have hz : (colAt dbl 1 (1 / 5) (1 : ℝ) 1).z = 0 :=
+      (inv_colAfter dbl 1 (1 : ℝ) (1 / 5) one_ne_zero (by norm_num) 1 (le_refl _)).z0
+    rw [combine_eq 1 _ _ hz, sum_range_one, coeffs_get, if_pos (by norm_num), if_pos (pad_dbl drop)]
+    simp
+  · intro hm
+    have := (hm 0 (by norm_num)).mp (pad_dbl drop)
+    omega
+
 end GMRES
